@@ -10,7 +10,7 @@ import (
 
 // Shapes lists every data shape known to the generator.
 var Shapes = []string{"random", "text", "utf8", "utf8wide", "dna", "dnalines", "exe", "wav", "bmp",
-	"runs", "smallalpha", "skew", "zeros", "gzipmagic", "mixed", "ramp", "numeric", "html", "sparse", "x86", "hex", "nibbles", "alpha15", "alpha17", "base64", "dnarep", "bmptile", "crlfsplit", "tailrandom", "utf8cjk", "utf8dmg", "magictext", "magicmix", "hotquarter", "piecewise"}
+	"runs", "smallalpha", "skew", "zeros", "gzipmagic", "mixed", "ramp", "numeric", "html", "sparse", "x86", "hex", "nibbles", "alpha15", "alpha17", "base64", "dnarep", "bmptile", "crlfsplit", "tailrandom", "utf8cjk", "utf8dmg", "magictext", "magicmix", "hotquarter", "piecewise", "wordlist"}
 
 var words = strings.Fields(`the of and to in is that it was for on are as with his they be at one have this from
 or had by hot word but what some we can out other were all there when up use your how said an each she which do
@@ -556,6 +556,32 @@ func Make(shape string, seed int64, n int) []byte {
 			// one 1024-byte piece in eight keeps its own first bytes
 			if (start/1024+k)%8 != 7 {
 				copy(b[start:], sigs[(start/1024+k)%len(sigs)])
+			}
+		}
+	case "wordlist":
+		// a list of words that are (almost) all different: dictionaries of the text transforms fill up and wrap, word indexes get
+		// large; the last few hundred words are repeated at the end (references to entries registered late)
+		var recent [][]byte
+		for len(b) < n {
+			w := make([]byte, 5+r.Intn(3))
+			x := r.Uint64()
+			for i := range w {
+				w[i] = byte('a' + x%26)
+				x /= 26
+			}
+			repeat := len(b) > n-30000 && len(recent) > 3000 && r.Intn(2) == 0
+			if repeat {
+				// one of the last few thousand new words
+				w = recent[r.Intn(len(recent))]
+			}
+			b = append(b, w...)
+			b = append(b, []byte{' ', ' ', '\n', ' '}[r.Intn(4)])
+			if !repeat {
+				if len(recent) < 4000 {
+					recent = append(recent, w)
+				} else {
+					recent = append(recent[1:], w)
+				}
 			}
 		}
 	case "hotquarter":
